@@ -46,11 +46,8 @@ Fixpoint lv_set (m : list (Z * list member)) (l : Z) (v : list member) : list (Z
   | [] => [(l, v)]
   | (k, v') :: t => if k =? l then (k, v) :: t else (k, v') :: lv_set t l v
   end.
-Fixpoint lv_del (m : list (Z * list member)) (l : Z) : list (Z * list member) :=
-  match m with
-  | [] => []
-  | (k, v) :: t => if k =? l then t else (k, v) :: lv_del t l
-  end.
+Definition lv_del (m : list (Z * list member)) (l : Z) : list (Z * list member) :=
+  filter (fun kv : Z * list member => negb (fst kv =? l)) m.
 
 Inductive wop :=
 | SetW (w : wid) | AddW (w : wid) | RemW (w : wid)
@@ -161,5 +158,34 @@ Definition route (errdev : list Z) (c : wconf) (lvl : Z) : list wid :=
 
 Definition abs_leveled (x : dualwriter) (l : Z) : list wid :=
   match lv_get (dw_leveled x) l with Some v => map member_id v | None => [] end.
+
+(* abstraction of the code-level state; [None] (no own writers) denotes the package defaults *)
+Definition abs (d : option dualwriter) : wconf :=
+  let x := ensure d in
+  {| c_normal := map member_id (dw_normal x); c_error := map member_id (dw_error x);
+     c_leveled := abs_leveled x |}.
+
+Definition conf_eq (a b : wconf) : Prop :=
+  c_normal a = c_normal b /\ c_error a = c_error b /\ forall l, c_leveled a l = c_leveled b l.
+
+(* the writer an operation names *)
+Definition wop_writer (o : wop) : option wid :=
+  match o with
+  | SetW w | AddW w | RemW w | SetE w | AddE w | RemE w | AddL _ w | RemL _ w => Some w
+  | _ => None
+  end.
+(* user writers are positive ids (stdout/stderr/discard are negative and cannot be named) *)
+Definition wop_ok (o : wop) : bool :=
+  match wop_writer o with Some w => 0 <? w | None => true end.
+
+(* delivery of one record (printOut -> LWs.WriteLeveled): a member that is
+   LevelSettable is told the level right before its Write *)
+Inductive wevent := EvSet (w : wid) (l : Z) | EvWrite (w : wid).
+Section Deliver.
+Variable is_ls : wid -> bool.
+Definition deliver1 (lvl : Z) (m : member) : list wevent :=
+  (if is_ls (member_id m) then [EvSet (member_id m) lvl] else []) ++ [EvWrite (member_id m)].
+Definition deliver (ms : list member) (lvl : Z) : list wevent := flat_map (deliver1 lvl) ms.
+End Deliver.
 
 End WithPool.
